@@ -14,15 +14,15 @@ EXTENDS UrlText, TraceKit
 
 CONSTANTS Want, MinLen, MinTok
 
-VARIABLES l, fails, prev, ndom, ngram, maxlen, maxrank, drift, nok, done
-tvars == <<l, fails, prev, ndom, ngram, maxlen, maxrank, drift, nok, done>>
+VARIABLES l, fails, prev, ndom, ngram, ncase, maxlen, maxrank, drift, nok, done
+tvars == <<l, fails, prev, ndom, ngram, ncase, maxlen, maxrank, drift, nok, done>>
 
 TokOrder == <<"a", "@", ":", "/", "0", "8", "~", "unix", "tcp">>
 Rank(t) == IF \E i \in DOMAIN TokOrder : TokOrder[i] = t THEN CHOOSE i \in DOMAIN TokOrder : TokOrder[i] = t ELSE 0
 KindRank(k) == IF k = "sync" THEN 1 ELSE IF k = "fwd" THEN 2 ELSE 0
 
 RawOf(in) == (IF in.pre THEN <<DockerPrefix>> ELSE <<>>) \o in.toks
-DomRank(d) == IF d = "flat" THEN 1 ELSE IF d = "gram" THEN 2 ELSE 0
+DomRank(d) == IF d = "flat" THEN 1 ELSE IF d = "gram" THEN 2 ELSE IF d = "case" THEN 3 ELSE IF d = "scheme" THEN 4 ELSE 0
 IsDom(in) == DomRank(in.dom) > 0
 InDomain(in) == /\ KindRank(in.kind) > 0
                 /\ Str(RawOf(in)) = in.s
@@ -30,6 +30,12 @@ InDomain(in) == /\ KindRank(in.kind) > 0
                 /\ in.dom = "gram" => /\ Len(in.gi) = 5
                                        /\ \A i \in 1..5 : in.gi[i] \in 1..GLens[i]
                                        /\ in.toks = GramAt(in.gi)
+                /\ in.dom = "case" => /\ Len(in.gi) = 3 /\ ~in.pre
+                                       /\ \A i \in 1..3 : in.gi[i] \in 1..CLens[i]
+                                       /\ in.toks = CaseAt(in.gi)
+                /\ in.dom = "scheme" => /\ Len(in.gi) = 4 /\ ~in.pre
+                                         /\ \A i \in 1..4 : in.gi[i] \in 1..SLens[i]
+                                         /\ in.toks = SchemeAt(in.gi)
 \* canonical order: kind, prefix, length, then lexicographic by token rank
 SeqLess(a, b) == \E d \in DOMAIN a : /\ \A j \in 1..(d - 1) : a[j] = b[j]
                                      /\ Rank(a[d]) < Rank(b[d])
@@ -39,7 +45,7 @@ InLess(x, y) ==
   IF DomRank(x.dom) # DomRank(y.dom) THEN DomRank(x.dom) < DomRank(y.dom)
   ELSE IF KindRank(x.kind) # KindRank(y.kind) THEN KindRank(x.kind) < KindRank(y.kind)
   ELSE IF x.pre # y.pre THEN y.pre
-  ELSE IF x.dom = "gram" THEN IdxLess(x.gi, y.gi)
+  ELSE IF x.dom \in {"gram", "case", "scheme"} THEN IdxLess(x.gi, y.gi)
   ELSE IF Len(x.toks) # Len(y.toks) THEN Len(x.toks) < Len(y.toks)
   ELSE SeqLess(x.toks, y.toks)
 MaxRankOf(ts) == IF ts = <<>> THEN 0 ELSE CHOOSE m \in {Rank(ts[i]) : i \in DOMAIN ts} : \A i \in DOMAIN ts : Rank(ts[i]) <= m
@@ -74,32 +80,34 @@ RecFails(i, r) ==
     \o Chk(Want, i, "C38_RoundTrip", C38_RoundTrip(r))
     \o (IF IsDom(r.in) /\ prev # <<>> /\ ~InLess(prev[1], r.in) THEN <<Fail(i, "C38_DomainCovered")>> ELSE <<>>)
 
-TInit == /\ l = 1 /\ fails = <<>> /\ prev = <<>> /\ ndom = 0 /\ ngram = 0 /\ maxlen = 0 /\ maxrank = 0
+TInit == /\ l = 1 /\ fails = <<>> /\ prev = <<>> /\ ndom = 0 /\ ngram = 0 /\ ncase = 0 /\ maxlen = 0 /\ maxrank = 0
          /\ drift = 0 /\ nok = 0 /\ done = FALSE
 Step == /\ l <= NRec
         /\ LET r == Trace[l]
                wf == WellFormed(r)
                dom == wf /\ r.in.dom = "flat"
-               gram == wf /\ r.in.dom = "gram"
+               gram == wf /\ r.in.dom \in {"gram", "case", "scheme"}
            IN /\ fails' = Cap(fails \o RecFails(l, r))
               /\ prev' = IF dom \/ gram THEN <<[dom |-> r.in.dom, kind |-> r.in.kind, pre |-> r.in.pre, toks |-> r.in.toks, gi |-> r.in.gi]>> ELSE prev
               /\ ndom' = IF dom THEN ndom + 1 ELSE ndom
-              /\ ngram' = IF gram THEN ngram + 1 ELSE ngram
+              /\ ngram' = IF gram /\ r.in.dom = "gram" THEN ngram + 1 ELSE ngram
+              /\ ncase' = IF gram /\ r.in.dom \in {"case", "scheme"} THEN ncase + 1 ELSE ncase
               /\ maxlen' = IF dom /\ Len(r.in.toks) > maxlen THEN Len(r.in.toks) ELSE maxlen
               /\ maxrank' = IF dom /\ MaxRankOf(r.in.toks) > maxrank THEN MaxRankOf(r.in.toks) ELSE maxrank
               /\ drift' = IF (dom \/ gram) /\ "Conforms" \in Want /\ ~Conforms(r) THEN drift + 1 ELSE drift
               /\ nok' = IF wf /\ r.p1.ok THEN nok + 1 ELSE nok
         /\ l' = l + 1 /\ UNCHANGED done
 \* a full run (more than one in-domain record; a replay has one) must cover the bound
-Covered == ndom + ngram > 1 => /\ maxlen >= MinLen /\ maxrank >= MinTok
+Covered == ndom + ngram + ncase > 1 => /\ maxlen >= MinLen /\ maxrank >= MinTok
                                /\ ndom = DomainSize(maxrank, maxlen)
                                /\ ngram = 4 * GramSize
+                               /\ ncase = 2 * CaseSize + 2 * SchemeSize
 Finish == /\ l = NRec + 1 /\ ~done
           /\ WriteResult(l - 1,
                          Cap(fails \o (IF "C38_DomainCovered" \in Want /\ ~Covered THEN <<Fail(NRec, "C38_DomainCovered")>> ELSE <<>>)),
-                         [stat_drift |-> drift, stat_indomain |-> ndom, stat_grammar |-> ngram, stat_parsed |-> nok,
+                         [stat_drift |-> drift, stat_indomain |-> ndom, stat_grammar |-> ngram, stat_case |-> ncase, stat_parsed |-> nok,
                           stat_maxlen |-> maxlen, stat_tokens |-> maxrank])
-          /\ done' = TRUE /\ UNCHANGED <<l, fails, prev, ndom, ngram, maxlen, maxrank, drift, nok>>
+          /\ done' = TRUE /\ UNCHANGED <<l, fails, prev, ndom, ngram, ncase, maxlen, maxrank, drift, nok>>
 TNext == Step \/ Finish
 TSpec == TInit /\ [][TNext]_tvars
 ====
